@@ -75,6 +75,22 @@ fn add_filter_script_len_range_conditions(
     query_builder.and_where_lt(&condition, range.end());
 }
 
+/// Adds `field >= $n AND field < $n+1` for a prefix search whose parameters are the prefix and
+/// `get_binary_upper_boundary(prefix)`; a NULL upper boundary means there is none.
+fn add_prefix_range_conditions(
+    query_builder: &mut SqlBuilder,
+    field: &str,
+    param_index: &mut usize,
+) {
+    query_builder.and_where_ge(field, format!("${}", param_index));
+    *param_index += 1;
+    query_builder.and_where(format!(
+        "({} < ${} OR ${} IS NULL)",
+        field, param_index, param_index
+    ));
+    *param_index += 1;
+}
+
 fn build_query_script_sql(
     db_driver: DBDriver,
     script_search_mode: &Option<IndexerSearchMode>,
@@ -92,10 +108,7 @@ fn build_query_script_sql(
     *param_index += 1;
     match script_search_mode {
         Some(IndexerSearchMode::Prefix) | None => {
-            query_builder.and_where_ge("args", format!("${}", param_index));
-            *param_index += 1;
-            query_builder.and_where_lt("args", format!("${}", param_index));
-            *param_index += 1;
+            add_prefix_range_conditions(&mut query_builder, "args", param_index);
         }
         Some(IndexerSearchMode::Exact) => {
             query_builder.and_where_eq("args", format!("${}", param_index));
@@ -133,10 +146,7 @@ fn build_query_script_id_sql(
     *param_index += 1;
     match script_search_mode {
         Some(IndexerSearchMode::Prefix) | None => {
-            query_builder.and_where_ge("args", format!("${}", param_index));
-            *param_index += 1;
-            query_builder.and_where_lt("args", format!("${}", param_index));
-            *param_index += 1;
+            add_prefix_range_conditions(&mut query_builder, "args", param_index);
         }
         Some(IndexerSearchMode::Exact) => {
             query_builder.and_where_eq("args", format!("${}", param_index));
@@ -178,10 +188,7 @@ fn build_cell_filter(
                     query_builder
                         .and_where_eq("type_script.hash_type", format!("${}", param_index));
                     *param_index += 1;
-                    query_builder.and_where_ge("type_script.args", format!("${}", param_index));
-                    *param_index += 1;
-                    query_builder.and_where_lt("type_script.args", format!("${}", param_index));
-                    *param_index += 1;
+                    add_prefix_range_conditions(query_builder, "type_script.args", param_index);
                 }
                 IndexerScriptType::Type => {
                     query_builder
@@ -190,10 +197,7 @@ fn build_cell_filter(
                     query_builder
                         .and_where_eq("lock_script.hash_type", format!("${}", param_index));
                     *param_index += 1;
-                    query_builder.and_where_ge("lock_script.args", format!("${}", param_index));
-                    *param_index += 1;
-                    query_builder.and_where_lt("lock_script.args", format!("${}", param_index));
-                    *param_index += 1;
+                    add_prefix_range_conditions(query_builder, "lock_script.args", param_index);
                 }
             }
         }
@@ -222,10 +226,7 @@ fn build_cell_filter(
         if filter.output_data.is_some() {
             match filter.output_data_filter_mode {
                 Some(IndexerSearchMode::Prefix) | None => {
-                    query_builder.and_where_ge("output.data", format!("${}", param_index));
-                    *param_index += 1;
-                    query_builder.and_where_lt("output.data", format!("${}", param_index));
-                    *param_index += 1;
+                    add_prefix_range_conditions(query_builder, "output.data", param_index);
                 }
                 Some(IndexerSearchMode::Exact) => {
                     query_builder.and_where_eq("output.data", format!("${}", param_index));
@@ -248,25 +249,19 @@ fn build_cell_filter(
     }
 }
 
-fn get_binary_upper_boundary(value: &[u8]) -> Vec<u8> {
-    if value.is_empty() {
-        return vec![u8::MAX; 32];
-    }
+/// The exclusive upper boundary of the byte strings that start with `value`: the prefix range
+/// query is `args >= $prefix AND args < $upper`. `None` means there is no such boundary: when
+/// `value` is empty or made of `u8::MAX` bytes only, every byte string that is `>= value` starts
+/// with it.
+fn get_binary_upper_boundary(value: &[u8]) -> Option<Vec<u8>> {
     // Compute the lexicographic successor: find the rightmost byte that is
     // not u8::MAX, increment it, then truncate everything after it. The result
     // is the shortest byte string that is strictly greater than every possible
-    // extension of `value`, which is exactly what the prefix range query
-    // `args >= $prefix AND args < $upper` needs.
-    if let Some(i) = value.iter().rposition(|&b| b != u8::MAX) {
-        let mut result = value[..=i].to_vec();
-        result[i] += 1;
-        result
-    } else {
-        // All bytes are u8::MAX — no finite exclusive upper bound exists for
-        // this prefix. Return a sentinel one byte longer that is still
-        // lexicographically greater than any extension of the input.
-        vec![u8::MAX; value.len() + 1]
-    }
+    // extension of `value`.
+    let i = value.iter().rposition(|&b| b != u8::MAX)?;
+    let mut result = value[..=i].to_vec();
+    result[i] += 1;
+    Some(result)
 }
 
 fn bytes_to_h256(input: &[u8]) -> H256 {
@@ -366,7 +361,7 @@ mod tests {
     #[test]
     fn test_get_binary_upper_boundary_empty() {
         let result = get_binary_upper_boundary(&[]);
-        assert_eq!(result, vec![255; 32]);
+        assert_eq!(result, None);
     }
 
     #[test]
@@ -376,7 +371,7 @@ mod tests {
         let expected =
             hex::decode("b2a8500929d6a1294bf9bf1bf565f549fa4a5f1316a3306ad3d4783e64bcf627")
                 .expect("Decoding failed");
-        let result = get_binary_upper_boundary(&input);
+        let result = get_binary_upper_boundary(&input).expect("bounded");
         assert_eq!(result, expected);
     }
 
@@ -389,7 +384,7 @@ mod tests {
             hex::decode("00014cbca1cb3cd2b60550904f16c920cffa7c9f866e").expect("Decoding failed");
         let expected =
             hex::decode("00014cbca1cb3cd2b60550904f16c920cffa7c9f866f").expect("Decoding failed");
-        let result = get_binary_upper_boundary(&input);
+        let result = get_binary_upper_boundary(&input).expect("bounded");
         assert_eq!(
             result.len(),
             input.len(),
@@ -402,7 +397,7 @@ mod tests {
     fn test_get_binary_upper_boundary_multiple_leading_zeros() {
         let input = hex::decode("0000000102").expect("Decoding failed");
         let expected = hex::decode("0000000103").expect("Decoding failed");
-        let result = get_binary_upper_boundary(&input);
+        let result = get_binary_upper_boundary(&input).expect("bounded");
         assert_eq!(result.len(), input.len());
         assert_eq!(result, expected);
     }
@@ -410,22 +405,22 @@ mod tests {
     #[test]
     fn test_get_binary_upper_boundary_single_zero_byte() {
         let result = get_binary_upper_boundary(&[0x00]);
-        assert_eq!(result, vec![0x01]);
+        assert_eq!(result, Some(vec![0x01]));
     }
 
     #[test]
     fn test_get_binary_upper_boundary_all_ff_overflow() {
-        // When all bytes are u8::MAX, no same-length upper bound exists.
-        // The function returns a sentinel of u8::MAX bytes one byte longer.
+        // When all bytes are u8::MAX, no upper bound exists: [0xff, 0xff, 0xff] and
+        // [0xff, 0xff, 0xff, 0x00] also start with the input.
         let result = get_binary_upper_boundary(&[u8::MAX, u8::MAX]);
-        assert_eq!(result, vec![u8::MAX; 3]);
+        assert_eq!(result, None);
     }
 
     #[test]
     fn test_get_binary_upper_boundary_trailing_ff_carry() {
         // Trailing u8::MAX bytes are truncated; only the incremented byte remains
         let input = vec![0x00, u8::MAX, u8::MAX];
-        let result = get_binary_upper_boundary(&input);
+        let result = get_binary_upper_boundary(&input).expect("bounded");
         assert_eq!(result, vec![0x01]);
     }
 
@@ -434,7 +429,7 @@ mod tests {
         // Short prefix search case from the bug report: args "0x003d"
         let input = hex::decode("003d").expect("Decoding failed");
         let expected = hex::decode("003e").expect("Decoding failed");
-        let result = get_binary_upper_boundary(&input);
+        let result = get_binary_upper_boundary(&input).expect("bounded");
         assert_eq!(result.len(), input.len());
         assert_eq!(result, expected);
     }
